@@ -44,7 +44,7 @@ def dumpMddState (m : MddMgr) : String :=
   s!"vars={vars}|term={showBool m.tbl.term}|succ={succ}|ref={ref}|max={m.max}|free={showNats m.free}|pred={pred}|cache={cache}"
 
 /-- one MDD operation on one MDD manager -/
-def stepMdd (op : String) (args : List String) : MM Res := do
+def stepMdd (op : String) (args : List String) : MM DRes := do
   let m ← MM.get
   match op, args with
   | "mdd_foa", [i, nodes] =>
